@@ -155,7 +155,7 @@ def plan_c10(ctx):
     docs = [dict(module='MC_Compact', cfg='MC_Compact_v062', expect='violation'),
             dict(module='MC_Compact', cfg='MC_Compact_v062_dup', expect='violation'),
             dict(module='MC_Compact', cfg='MC_Compact_v062_sorted', expect='violation')]
-    r = standard(ctx, COMPACT_MCS + docs,
+    r = standard(ctx, COMPACT_MCS + docs + [dict(module='MC_Compact', cfg='MC_Compact_live')],
                  rule='non-overlapping inputs enumerated by MC_Compact, fixtures, seeded antichains and low-resolution face mixes; each is '
                       'compacted twice; pairs (A, refinement of A) with equal cover. distinct_nontrivial = compact calls on antichains',
                  assumptions=['IDs decoded by the spec (C05)'])
